@@ -142,7 +142,7 @@ class _Uni:
         return list(self.assets)
 
 
-@harness('BacktestTradingSession.__init__', props=['C08', 'C14'], also=['C12', 'C13', 'C18', 'C06', 'C01', 'C11'], layer='L4', functions=WIRING_FUNCS)
+@harness('BacktestTradingSession.__init__', props=['C08', 'C14'], also=['C12', 'C13', 'C18', 'C06', 'C01', 'C11', 'C10', 'C16', 'C19'], layer='L4', functions=WIRING_FUNCS)
 def session_wiring(c):
     """the session wires: exchange; the given data handler; a broker holding initial_cash in ONE portfolio (master account
        emptied into it) with the given fee model; a clock without pre/post-market events over [start, end]; the schedule class
@@ -198,6 +198,13 @@ def session_wiring(c):
             c.ob(tag + 'clock-still-over-start-end', AND(e.starting_day == start, e.ending_day == end, e.pre_market is False, e.post_market is False,
                                                           s.burn_in_dt == burn), props=['C12', 'C14', 'C08', 'C16'])
             c.ob(tag + 'schedule-still-over-start-end', list(s.rebalance_schedule) == kinds['daily'], props=['C13', 'C14', 'C08'])
+    start0, end0 = pd.Timestamp('2019-01-07 00:00:00', tz='UTC'), pd.Timestamp('2019-01-10 09:00:00', tz='UTC')
+    for kind in ('buy_and_hold', 'daily'):
+        r, s = _try(lambda: BacktestTradingSession(start0, end0, uni, alpha, initial_cash=cash, rebalance=kind, long_only=True, fee_model=fm,
+                                                   data_handler=dh, cash_buffer_percentage=buf))
+        c.ob('midnight-start/%s/clock-over-exactly-start-end' % kind,
+             r == 'ok' and s.sim_engine.starting_day == start0 and s.sim_engine.ending_day == end0 and s.start_dt == start0 and s.end_dt == end0,
+             props=['C12', 'C14', 'C08'])
     # membership of a schedule is by DATE: a start after 21:00 and an end before 21:00 change nothing (the clock still emits the closes)
     start2, end2 = pd.Timestamp('2019-01-02 21:01:00', tz='UTC'), pd.Timestamp('2019-03-29 14:30:00', tz='UTC')
     for kind, ref in (('daily', lambda: DailyRebalance(start2, end2)), ('weekly', lambda: WeeklyRebalance(start2, end2, 'FRI')),
@@ -231,7 +238,7 @@ def session_wiring(c):
     hdls = [m for m in made if m[0] == 'handler']
     c.ob('default-data-handler/one-csv-source-over-every-file-of-the-directory',
          AND(r == 'ok', len(srcs) == 1, len(hdls) == 1) and not srcs[0][2].get('csv_symbols') and len(srcs[0][1]) <= 2
-         and srcs[0][2].get('adjust_prices', True) is True, props=['C06', 'C08'])
+         and srcs[0][2].get('adjust_prices', True) is True, props=['C06', 'C08', 'C19', 'C16', 'C10', 'C11'])
     if r == 'ok' and len(hdls) == 1:
         ds = hdls[0][2].get('data_sources') or (hdls[0][1][1] if len(hdls[0][1]) > 1 else None)
         c.ob('default-data-handler/handler-over-exactly-that-source', isinstance(ds, list) and len(ds) == 1 and isinstance(ds[0], Src) and s.data_handler.__class__ is Hdl,
